@@ -64,8 +64,8 @@ func main() {
 		return
 	}
 
-	nTopo := r.N(8*len(kinds), 76*len(kinds))
-	nWork := r.N(600, 6000)
+	nTopo := r.N(8*len(kinds), 160*len(kinds))
+	nWork := r.N(600, 20000)
 
 	if b := os.Getenv("C12_BATCH"); b != "" {
 		// child: topologies lo, lo+step, ... < hi
